@@ -1,6 +1,7 @@
 import Vflow.Proofs.Locks
 import Vflow.Proofs.LocksRun
 import Vflow.Proofs.LocksDeadlock
+import Vflow.Proofs.LocksExec
 import Vflow.Proofs.LockIR
 import Vflow.Gen.LockRegions
 /-!
@@ -269,6 +270,20 @@ theorem no_deadlock {init cur : Sys} {hist : List Ev} (h0 : Init init) (hr : Run
 theorem all_schedules_terminate {init cur : Sys} {hist : List Ev} (hr : Run init hist cur) :
     hist.length + remaining cur = remaining init :=
   run_length hr
+
+/-! ## The model driver runs the relation -/
+
+/-- what `vfmodel` (`Driver/Locks.lean`) executes for the `cachestress` correspondence is a run of
+the step relation above, and a `race` it prints is a `Race` state reachable in the model -/
+theorem driver_schedule_sound (pick : Nat → Nat) (fuel : Nat) (init : Sys) :
+    ∃ hist, Run init hist (schedule pick fuel 0 init).2 ∧
+      ((schedule pick fuel 0 init).1 = .race → Race (schedule pick fuel 0 init).2) :=
+  schedule_sound pick fuel 0 init init [] Run.start
+
+theorem driver_scheduleFreeze_sound (i fuel : Nat) (init : Sys) :
+    ∃ hist, Run init hist (scheduleFreeze i fuel init).2 ∧
+      ((scheduleFreeze i fuel init).1 = .race → Race (scheduleFreeze i fuel init).2) :=
+  scheduleFreeze_sound i fuel init init [] Run.start
 
 /-! ## Non-vacuity: a concrete run with a completed insert followed by a lookup -/
 
